@@ -526,7 +526,8 @@ def finish(prop, a, cfg, t0, violations, known_hits, obligations, discharged, ch
         "property_id": prop, "tier": a.tier, "seed": a.seed, "level": "proof", "coverage": cov,
         "assumptions": cfg.get("assumptions", []), "wall_s": round(wall, 2), "violations": len(violations),
     }
-    if not a.replay:
+    # a run against a seeded change (tools/seed_run.sh sets VERIF_NO_EVIDENCE) is a test of the check, not evidence
+    if not a.replay and not os.environ.get("VERIF_NO_EVIDENCE"):
         json.dump(ev, open(os.path.join(VERIF, "evidence", f"{prop}.json"), "w"), indent=1, ensure_ascii=False)
     for path, suffix in violations:
         # one human-readable line per violation in front of the VIOLATION line: what failed, on which case (so that a log alone,
